@@ -160,7 +160,7 @@ def u_gram_step(h, penalty, X, greedy):
             h.ensure('opt-fresh[%d]' % j, h.eq(opt[j], sc[j]))
 
 
-def u_group_step(h, datafit, layout, X, g, positive=False, sparse_twin=False):
+def u_group_step(h, datafit, layout, X, g, positive=False, sparse_twin=False, sparse_epoch=False):
     """one group of the real _bcd_epoch (and sparse twin): consistency, feasibility, untouched others"""
     from skglm.solvers.group_bcd import _bcd_epoch, _bcd_epoch_sparse
     Xc = X_of(X)
@@ -193,9 +193,11 @@ def u_group_step(h, datafit, layout, X, g, positive=False, sparse_twin=False):
     for k in range(p):
         if k not in lay[g]:
             h.ensure('untouched[%d]' % k, h.eq(w1[k], w[k]))
-    if sparse_twin and hasattr(df, 'gradient_g_sparse'):
+    if (sparse_twin or sparse_epoch) and hasattr(df, 'gradient_g_sparse'):
         Xs = h.csc(Xd)
-        lips = df.get_lipschitz_sparse(Xs.data, Xs.indptr, Xs.indices, y)
+        # sparse_epoch: the CSC epoch kernel with the SAME block constants as the dense one (isolates the kernel from the
+        # randomised power method behind get_lipschitz_sparse)
+        lips = lip if sparse_epoch else df.get_lipschitz_sparse(Xs.data, Xs.indptr, Xs.indices, y)
         w2 = h.arr([w[k] for k in range(p)]) if h.mode == 'sym' else np.array(w, dtype=float)
         Xw2 = h.arr([Xw[i] for i in range(n)]) if h.mode == 'sym' else np.array(Xw, dtype=float)
         _bcd_epoch_sparse(Xs.data, Xs.indptr, Xs.indices, y, w2, Xw2, lips, df, pen, ws)
@@ -251,6 +253,181 @@ def u_multitask_step(h, X, j, T=2):
         for t in range(T):
             same = h.and_(same, h.eq(XW2[i, t], XW1[i, t]))
     h.ensure('sparse==dense', same)
+
+
+def mt1_violation_terms(h, Xc, Y, W, al, fit_intercept):
+    """per-row distance of -grad_j to the subdifferential of alpha*||.||_2 at row W[j] (absolute values when there is one
+    task), and the intercept term max_t |d/db_t|"""
+    from vf.shim import _smax
+    from vf import shim
+    n, p = Xc.shape
+    T = Y.shape[1]
+    res = [[sum(Xc[i, k] * W[k, t] for k in range(p) if Xc[i, k] != 0) + (W[p, t] if fit_intercept else 0.0) - Y[i, t]
+            for t in range(T)] for i in range(n)]
+    sym = h.mode == 'sym'
+
+    def nrm(v):
+        if len(v) == 1:
+            return abs(v[0])
+        return shim.norm(h.arr(v)) if sym else float(np.linalg.norm(np.array(v, dtype=float)))
+    terms = []
+    for j in range(p):
+        g = [sum(Xc[i, j] * res[i][t] for i in range(n) if Xc[i, j] != 0) / n for t in range(T)]
+        wj = [W[j, t] for t in range(T)]
+        iszero = all((bool(v == 0) if sym else float(v) == 0.0) for v in wj)
+        if iszero:
+            terms.append(_smax(0.0, nrm(g) - al) if sym else max(0.0, nrm(g) - float(al)))
+        elif T == 1:
+            pos = bool(wj[0] > 0) if sym else (float(wj[0]) > 0)
+            terms.append(abs(g[0] + (al if pos else -al)))
+        else:
+            nw = nrm(wj)
+            terms.append(nrm([g[t] + al * wj[t] / nw for t in range(T)]))
+    if fit_intercept:
+        gi = [abs(sum(res[i][t] for i in range(n)) / n) for t in range(T)]
+        m = gi[0]
+        for v in gi[1:]:
+            m = _smax(m, v) if sym else max(m, v)
+        terms.append(m)
+    return terms
+
+
+def u_multitask_run(h, X, fit_intercept, sparse=False, warm=False, budget=(2, 1), T=1, want=('certificate', 'history'),
+                    Y_concrete=None):
+    """bounded run of the real MultiTaskBCD with symbolic alpha, tol and (one task) symbolic Y / warm start -- row norms are
+    absolute values, piecewise linear -- or (several tasks) catalogue targets: tolerance stops certify the returned point,
+    the history describes the run"""
+    import skglm.solvers as S
+    Pm, Dm = P(), D()
+    Xc = X_of(X)
+    n, p = Xc.shape
+    tol, al = h.real('tol'), h.real('alpha')
+    h.assume(tol > 0, al > 0)
+    Y = h.mat('Y', n, T) if Y_concrete is None else h.const(np.array(Y_concrete, dtype=float)[:n, :T])
+    pen = h.penalty(Pm.L2_1, alpha=al)
+    df = h.datafit(Dm.QuadraticMultiTask)
+    Xd = h.const(Xc)
+    Xa = h.csc(Xd) if sparse else Xd
+    nw = p + (1 if fit_intercept else 0)
+    W0 = XW0 = None
+    if warm:
+        W0 = h.mat('W0', nw, T)
+        if h.mode == 'sym':
+            XW0 = h.arr([[sum(Xc[i, k] * W0[k, t] for k in range(p) if Xc[i, k] != 0) + (W0[p, t] if fit_intercept else 0.0)
+                          for t in range(T)] for i in range(n)])
+        else:
+            XW0 = Xc @ np.asarray(W0[:p], dtype=float) + (np.asarray(W0[p], dtype=float) if fit_intercept else 0.0)
+    sol = S.MultiTaskBCD(max_iter=budget[0], max_epochs=budget[1], p0=1, tol=tol, fit_intercept=fit_intercept, use_acc=False)
+    W, obj, sc = sol._solve(Xa, Y, df, pen, W0, XW0)
+    for j in range(nw):
+        h.observe('W%d' % j, W[j, 0])
+    if 'certificate' in want:
+        stopped = h.le(sc, tol)
+        if (h.mode == 'sym' and bool(stopped)) or (h.mode != 'sym' and stopped.strict):
+            ok = h.true()
+            dom = h.true()
+            for tm in mt1_violation_terms(h, Xc, Y, W, al, fit_intercept):
+                ok = h.and_(ok, h.le(tm, tol))
+                dom = h.and_(dom, h.le(tm, sc))
+            h.ensure('certificate', ok)
+            h.ensure('violation<=stop_crit', dom)
+        else:
+            h.ensure('certificate', True)
+    if 'history' in want:
+        L = len(obj)
+        h.ensure('history-length<=max_iter', L <= budget[0])
+        if L > 0:
+            res = [[sum(Xc[i, k] * W[k, t] for k in range(p) if Xc[i, k] != 0) + (W[p, t] if fit_intercept else 0.0) - Y[i, t]
+                    for t in range(T)] for i in range(n)]
+            from vf import shim
+            rown = [abs(W[j, 0]) if T == 1 else
+                    (shim.norm(h.arr([W[j, t] for t in range(T)])) if h.mode == 'sym'
+                     else float(np.linalg.norm(np.array([W[j, t] for t in range(T)], dtype=float)))) for j in range(p)]
+            F = sum(res[i][t] * res[i][t] for i in range(n) for t in range(T)) / (2 * n) + al * sum(rown)
+            h.ensure('last-history-entry==objective', h.eq(obj[L - 1], F))
+            mono = h.true()
+            for k in range(L - 1):
+                mono = h.and_(mono, h.le(obj[k + 1], obj[k]))
+            h.ensure('history-non-increasing', mono)
+
+
+def u_multitask_acc(h, fit_intercept, X='corr32', sparse=False):
+    """MultiTaskBCD's inline Anderson step (epoch 6 of an inner loop): the extrapolated point is an affine combination of
+    the last iterates; the run that takes it must not end higher than the run that stops one epoch earlier.
+    Symbolic mode: np.linalg.solve of the solver module is a contract stub returning a catalogue weight vector (so the
+    proposal is one of the STORED iterates, i.e. a point the descent steps already improved on) -- patched unit.
+    Concrete confirmation (unpatched): the real linear solve on a larger un-centred random problem."""
+    import skglm.solvers as S
+    import skglm.solvers.multitask_bcd as mtb
+    Pm, Dm = P(), D()
+    tol, al = h.real('tol'), h.real('alpha')
+    h.assume(tol > 0, al > 0)
+    big = h.mode != 'sym' and h.unpatched and getattr(h, 'rng', None) is not None
+    if big:
+        seed = int(float(h._val('design_seed'))) if 'design_seed' in h.values else int(h.rng.random() * 2 ** 31)
+        h.values['design_seed'] = seed
+        rs = np.random.RandomState(seed)
+        n, p, T = 30, 8, 3
+        Xc = rs.randn(n, p) + 1.0
+        for j in range(1, p):
+            Xc[:, j] += rs.uniform(0, 2) * Xc[:, 0]
+        Y = np.asfortranarray(rs.randn(n, T) + Xc[:, :2] @ rs.randn(2, T) + 5.0 * rs.randn(1, T))
+        p0 = p
+    else:
+        Xc = X_of(X)
+        n, p = Xc.shape
+        T = 1
+        Y = h.mat('Y', n, T)
+        p0 = 1
+    Xd = h.const(Xc)
+    Xa = h.csc(Xd) if sparse else Xd
+    nw = p + (1 if fit_intercept else 0)
+    saved = None
+    if h.mode == 'sym':
+        k = h.choice('acc_pick', [0, 2, 4])
+        saved = mtb.np
+
+        class _NP:
+            def __getattr__(self, name):
+                return getattr(saved, name)
+
+        class _LA:
+            LinAlgError = np.linalg.LinAlgError
+
+            @staticmethod
+            def solve(C, b):
+                z = np.zeros(len(b))
+                z[k] = 1.0
+                return z
+        proxy = _NP()
+        proxy.linalg = _LA()
+        mtb.np = proxy
+
+    def run(epochs):
+        pen = h.penalty(Pm.L2_1, alpha=al)
+        df = h.datafit(Dm.QuadraticMultiTask)
+        sol = S.MultiTaskBCD(max_iter=1, max_epochs=epochs, p0=p0, tol=tol, fit_intercept=fit_intercept, use_acc=True)
+        W, obj, sc = sol._solve(Xa, Y, df, pen)
+        res = [[sum(Xc[i, kk] * W[kk, t] for kk in range(p) if Xc[i, kk] != 0) + (W[p, t] if fit_intercept else 0.0) - Y[i, t]
+                for t in range(T)] for i in range(n)]
+        if T == 1:
+            rown = [abs(W[j, 0]) for j in range(p)]
+        else:
+            rown = [float(np.linalg.norm(np.array([W[j, t] for t in range(T)], dtype=float))) for j in range(p)]
+        F = sum(res[i][t] * res[i][t] for i in range(n) for t in range(T)) / (2 * n) + al * sum(rown)
+        return W, F
+    try:
+        W6, F6 = run(6)
+        W5, F5 = run(5)
+    finally:
+        if saved is not None:
+            mtb.np = saved
+    for j in range(nw):
+        h.observe('W%d' % j, W6[j, 0])
+    if h.mode == 'sym':
+        h.ensure('extrapolation-epoch-never-increases-objective', h.le(F6, F5))
+    else:
+        h.ensure('extrapolation-epoch-never-increases-objective', float(F6) <= float(F5) + 1e-9 * (1 + abs(float(F5))))
 
 
 def u_pn_linesearch(h, X, fit_intercept, group=False, layout='rev'):
